@@ -19,7 +19,7 @@ while IFS=$'\t' read -r patch obl filter; do
   if ! (cd "$scratch/repo" && go build ./... >/dev/null 2>&1); then
     echo "SELFTEST $patch: mutant does not compile"; fail=1; continue
   fi
-  out=$(/verif/bin/govc check --repo "$scratch/repo" --work "$scratch/work" --func "$filter" -v 2>&1)
+  out=$(/verif/bin/govc check --repo "$scratch/repo" --work "$scratch/work" --func "$filter" --timeout 10000 -v 2>&1)
   if echo "$out" | grep -F "$obl" | grep -qE "FAILED|ENGINE"; then
     echo "selftest ok   $patch -> $obl FAILED as required"
   else
